@@ -69,6 +69,9 @@ let () = register "packed_elem" (fun a ->
     out_str "arr" (pk_hex_of_slots sb arr');
     out_str "vbits" a.(3);
     let n = nslots * s / w in
+    let l = int_of_string a.(4) in
+    let nmax = if l >= 32 then 0x80000000 else if l = 16 then 65536 else 256 in
+    let n = if n > nmax then nmax else n in
     let el = ref [] in
     for j = 0 to n - 1 do
       if pk_in_window n i j then begin
